@@ -319,8 +319,9 @@ func init() {
 			return s.makeInterface(st, scalar(org.typ, loc.Ref), org.typ, fn.Signature.Results().At(0).Type())
 		}
 	}
-	// sort.Slice / sort.SliceStable permute the elements of the slice in place (the less function is assumed pure)
-	for _, nm := range []string{"sort.Slice", "sort.SliceStable"} {
+	// sort.Slice / sort.SliceStable / sort.Sort / sort.Stable permute the elements of the slice in place
+	// (Less/Swap of the usual named-slice adapters are assumed to be the standard ones)
+	for _, nm := range []string{"sort.Slice", "sort.SliceStable", "sort.Sort", "sort.Stable"} {
 		builtinModels[nm] = func(s *Session, fr *Frame, fn *ssa.Function, args []Val, st *State) Val {
 			org, ok := s.ifaceOrigin[args[0].T0().S]
 			if !ok || len(org.val.L) != 3 {
@@ -331,11 +332,26 @@ func init() {
 			sl := org.typ.Underlying().(*types.Slice)
 			eloc := &Loc{Kind: "A", TypeKey: typeKey(sl.Elem()), Ref: org.val.L[0], Typ: sl.Elem()}
 			names, sorts, leaves := locHeaps(eloc)
+			s.nfresh++
+			pf := s.declFun(fmt.Sprintf("perm!%d", s.nfresh), []string{SInt}, SInt)
+			qf := s.declFun(fmt.Sprintf("permi!%d", s.nfresh), []string{SInt}, SInt)
+			off, ln := org.val.L[1], org.val.L[2]
 			for i, l := range leaves {
 				h := s.heapGet(st, names[i], sorts[i])
-				st.Heap[names[i]] = s.define("H", Store(h, org.val.L[0], s.fresh("sorted", arrSort(l.Sort))))
+				oldArr := Select(h, org.val.L[0])
+				na := s.fresh("sorted", arrSort(l.Sort))
+				s.nfresh++
+				j := fmt.Sprintf("j!%d", s.nfresh)
+				// every new element is an old element, and every old element is still present (a permutation)
+				ax1 := fmt.Sprintf("(forall ((%s Int)) (! (=> (and (<= 0 %s) (< %s %s)) (and (<= 0 (%s %s)) (< (%s %s) %s) (= (select %s (+ %s %s)) (select %s (+ %s (%s %s)))))) :pattern ((select %s (+ %s %s)))))",
+					j, j, j, ln.S, pf, j, pf, j, ln.S, na.S, off.S, j, oldArr.S, off.S, pf, j, na.S, off.S, j)
+				ax2 := fmt.Sprintf("(forall ((%s Int)) (! (=> (and (<= 0 %s) (< %s %s)) (and (<= 0 (%s %s)) (< (%s %s) %s) (= (select %s (+ %s (%s %s))) (select %s (+ %s %s))))) :pattern ((select %s (+ %s %s)))))",
+					j, j, j, ln.S, qf, j, qf, j, ln.S, na.S, off.S, qf, j, oldArr.S, off.S, j, oldArr.S, off.S, j)
+				s.assume(T{ax1, SBool})
+				s.assume(T{ax2, SBool})
+				st.Heap[names[i]] = s.define("H", Store(h, org.val.L[0], na))
 			}
-			s.note("sort.Slice in %s: the slice is replaced by an arbitrary array (permutation/order facts not modelled)", fr.fn.String())
+			s.note("sort in %s: modelled as an arbitrary permutation of the slice (the resulting order is not modelled)", fr.fn.String())
 			return Val{}
 		}
 	}
